@@ -1,10 +1,17 @@
 """C14 — configuration of ./check C14 (PROP) and the MANIFEST claim (CLAIM)."""
 PROP = dict(
-    modules=["CG.Props.C14"],
+    modules=["CG.Props.C14", "CG.Props.Block"],
     required_theorems=["C14_root_eq_spec", "C14_block_root_check", "C14_depth_exact", "C14_traverse_eq_extract",
                        "C14_traverse_eq_extract_any_depth", "C14_sound", "C14_complete", "C14_no_panic", "C14_zero_count",
-                       "C14_short_depth_misreads", "C14_root_by_position", "C14_built_proof_accepted"],
-    rule="c14.mb (MerkleBlock::validate on a directly built struct): every matched subset for counts 1..7 (thorough 1..10) "
+                       "C14_short_depth_misreads", "C14_root_by_position", "C14_built_proof_accepted",
+                       "Block_validate_iff", "Block_validate_accepts_only_merkle_root", "Block_validate_total",
+                       "Block_validate_error_sources", "Block_heights_table", "Block_rule_selection", "Block_inputs_spec"],
+    rule="c14.blockv (the WHOLE of Block::validate): blocks assembled from kind letters (c coinbase, v anyone-can-spend, x missing "
+         "utxo, g spendable under the Genesis rules only, l legacy-signed = valid only where FORKID is not required, f FORKID-signed) "
+         "x all seven networks x heights around the four activation heights (regenerated from the tree) and the i32 extremes x right / "
+         "wrong header root; outcome class compared with the block model and with the characterisation of Block_validate_iff; "
+         "c14.binputs: Block::inputs on blocks with repeated outpoints. "
+         "c14.mb (MerkleBlock::validate on a directly built struct): every matched subset for counts 1..7 (thorough 1..10) "
          "as explicit proofs, counts up to 600 with single / last / few / empty random subsets; declared counts 2^k-1, 2^k, 2^k+1 "
          "(k = 1..31), 2^32-1 and a few irregular large counts with sparse proofs along the left, right and a random spine, two "
          "spines, several leaves, neighbouring leaves and no match; for the small proofs, for n near powers of two and for the "
